@@ -128,6 +128,8 @@ def run_case(col, case):
     col.count()
     if part == "D":
         return run_case_d(col, case)
+    if part == "E":
+        return run_case_e(col, case)
     if part == "A":          # Padding.pad / get_padded_size / to_exact / resolve directly
         w, h = case["size"]
         fill = case["fill"]
@@ -319,6 +321,76 @@ def run_case_d(col, case):
         twin.close()
 
 
+E_COMBOS = [("block", "other", None), ("block", "kitty", None),
+            ("kitty", "kitty", "lines"), ("kitty", "kitty", "whole"), ("kitty", "konsole", "lines"),
+            ("iterm2", "iterm2", "lines"), ("iterm2", "iterm2", "whole"), ("iterm2", "wezterm", "lines"),
+            ("iterm2", "wezterm", "whole"), ("iterm2", "konsole", "whole")]
+
+
+def run_case_e(col, case):
+    """Part E: old-API draw(h_align, pad_width, v_align, pad_height) - still and animated - executed for real
+    (c06_common.execute: virtual stdout / terminal / clock) and judged on the model screen after every frame
+    and at the end: the box is exactly max(render, pad) (padding no larger than the render has no effect on
+    that axis), the frame - drawn alone through format() - sits at the aligned offset, every other cell of
+    the box is a blank, nothing outside the box is written.  Cursor bookkeeping and scrolling belong to C06."""
+    from .. import c06_common as cc
+
+    exp = cc.expected(case)
+    n = case["frames"]
+    axis = ("h" if exp.W > exp.w else "") + ("v" if exp.H > exp.h else "") or "none"
+    sig = dict(part="E", api="old", style=case["style"], ident=case["ident"], animated=bool(exp.animation),
+               axis=axis)
+    failed = []
+
+    def bad(clause, what):
+        failed.append(clause)
+        col.violation(dict(sig, clause=clause, mix=bool((case.get("style_kw") or {}).get("mix"))), what, case)
+
+    def on_frame(run, j):
+        if not failed:
+            cc.judge_screen(run, exp, j % n, lambda c, w: bad("frame-" + c, f"after frame #{j}: {w}"),
+                            final=False, scrolls_expected=run.term.scrolls)
+
+    run = cc.execute(case, on_frame=on_frame)
+    if exp.reject is not None:
+        raise world.HarnessError(f"C05 part E: case {case} is not a valid draw()")
+    if run.exc is not None:
+        bad("exception", f"draw() raised {run.exc!r} for a {exp.w}x{exp.h} render padded to {exp.W}x{exp.H}")
+        return
+    if not failed:
+        k_last = n - 1 if exp.animation else 0
+        cc.judge_screen(run, exp, k_last, lambda c, w: bad("final-" + c, f"after draw(): {w}"), final=True,
+                        scrolls_expected=run.term.scrolls)
+    if (exp.W, exp.H) != (exp.w, exp.h):
+        col.add_distinct(h64(("E", "".join(run.stdout.data))))
+
+
+def build_cases_e(quick):
+    cases = []
+    terms = [(8, 7)] if quick else [(8, 7), (6, 5)]
+    sizes = [(2, 2), (3, 2)] if quick else [(2, 2), (3, 2), (1, 3), (2, 1)]
+    aligns = [("<", "^"), ("|", "-"), (">", "_"), (None, None)] if quick else \
+        [(a, b) for a in ("<", "|", ">", None) for b in ("^", "-", "_", None)]
+    for (style, ident, method), (w, h), term in itertools.product(E_COMBOS, sizes, terms):
+        mixes = (False,) if style == "block" else (False, True)
+        for mix, frames in itertools.product(mixes, (1, 2) if quick else (1, 2, 3)):
+            # padding on both sides of the rendered size: smaller, equal, larger, terminal-relative
+            for pw in sorted({max(w - 1, 1), w, w + 2, 0, -1}):
+                for ph in sorted({max(h - 1, 1), h, h + 2, -2, -1}):
+                    for ha, va in aligns:
+                        if (ha, va) != aligns[0] and (pw > 0 and pw <= w) and (ph > 0 and ph <= h):
+                            continue        # no slack on either axis: alignment is immaterial
+                        if quick and (ha, va) == (None, None) and (pw, ph) != (w + 2, h + 2):
+                            continue
+                        c = dict(part="E", api="old", style=style, ident=ident, method=method, frames=frames,
+                                 repeat=1 if quick else 2, cached=False, size=(w, h), fmt=(ha, pw, va, ph), term=term,
+                                 row0=0, isatty=True, kind=f"{style}-{method}")
+                        if mix:
+                            c["style_kw"] = dict(mix=True)
+                        cases.append(c)
+    return cases
+
+
 def build_cases(tier):
     quick = tier == "quick"
     sizes = [(1, 1), (2, 1), (1, 2), (3, 2), (2, 3)] if quick else list(itertools.product((1, 2, 3), (1, 2, 3)))
@@ -397,6 +469,7 @@ def build_cases(tier):
                             cases.append(dict(part="D", kind="block", pad_=None, terms=terms, size=size,
                                               align=(ha, va), pad=(14, 9), cached=cached, repeat=2,
                                               schedule=schedule))
+    cases += build_cases_e(quick)
     return cases
 
 
@@ -433,9 +506,13 @@ def run(ctx):
         ctx.sample(c)
     ctx.rule = ("full product of inner render kind x render size x padding (aligned: every width -3..6, height "
                 "-3..5, 3x3 alignments; exact: every margin 0..2^4) x fill x terminal x tight/loose screen, through "
-                "Padding.pad, Renderable.render(padding=), RenderIterator frames and old-API format specs; "
+                "Padding.pad, Renderable.render(padding=), RenderIterator frames and old-API format specs; part E: real "
+                "old-API draw() calls (style x terminal identity x method x mix x still/animated x pad width/height "
+                "below / equal / above the render and terminal-relative x alignments) judged on the screen; "
                 "distinct = distinct padded outputs in which the padding changed the output")
-    ctx.coverage.update(parts=dict(A="Padding classes", B="Renderable.render / RenderIterator", C="format spec"),
+    ctx.coverage.update(parts=dict(A="Padding classes", B="Renderable.render / RenderIterator", C="format spec",
+                                   D="ImageIterator frames over a resized terminal",
+                                   E="old-API draw() (still / animated) judged on the screen per frame"),
                         cases=len(cases))
     ctx.assumptions += ["vterm (vlib/vterm.py) is the terminal; a render is anchored with the line-start column "
                         "at the anchor column (DESIGN 2.2)", "PIL"]
